@@ -78,3 +78,99 @@ Proof.
   apply v5_list_ack_shortening_enough; [apply max_size_le| |exact Hb].
   unfold q. rewrite list_ack_effective. exact Hk.
 Qed.
+
+(* PUBACK / PUBREC / PUBREL / PUBCOMP: 3 bytes, then the properties with the budget `reduce_limit(limit, 3 + 4)` *)
+Lemma ack_props_fit0 ups reason lim : lim <= VI_MAX ->
+  ack_props_encoded_size ups reason lim <= N.max 1 lim.
+Proof.
+  intros HL. destruct (lim <? 1) eqn:E.
+  - unfold ack_props_encoded_size. replace (lim <? 4) with true by lia. lia.
+  - pose proof (ack_props_fit ups reason lim HL ltac:(lia)). lia.
+Qed.
+
+Lemma puback_enough ups reason L : L <= VI_MAX -> 3 + 1 <= L ->
+  3 + ack_props_encoded_size ups reason (reduce_limit L (3 + 4)) <= L.
+Proof.
+  intros HL Hb.
+  pose proof (ack_props_fit0 ups reason (reduce_limit L (3 + 4))) as H.
+  unfold reduce_limit in *. destruct (L <? 3 + 4) eqn:E; lia.
+Qed.
+
+Definition pub_ack_kind (p : packet) : bool :=
+  match p with PublishAck _ | PublishReceived _ | PublishRelease _ | PublishComplete _ => true | _ => false end.
+
+Theorem v5_pub_ack_shortening_enough p L : L <= VI_MAX -> pub_ack_kind p = true ->
+  packet_encoded_size (drop_diag p) L <= L -> packet_encoded_size p L <= L.
+Proof.
+  intros HL Hk Hb. destruct p; try discriminate Hk;
+    cbn [drop_diag packet_encoded_size] in *;
+    unfold publish_ack_encoded_size, publish_ack2_encoded_size in *;
+    cbn [pa_properties pa_reason_string pa2_properties pa2_reason_string] in Hb;
+    rewrite ack_props_bare in Hb; apply puback_enough; assumption.
+Qed.
+
+Lemma pub_ack_kind_effective c p : pub_ack_kind (effective c p) = pub_ack_kind p.
+Proof. unfold effective. destruct (ec_no_problem_info c); [|reflexivity]. destruct p; reflexivity. Qed.
+
+Theorem v5_pub_ack_sent c p :
+  ec_encoding_payload c = None -> enc_ok p = true -> pub_ack_kind p = true ->
+  let q := effective c p in
+  packet_encoded_size (drop_diag q) (max_size_of c) <= max_size_of c ->
+  check_frame_size c (packet_encoded_size q (max_size_of c)) = Ok tt ->
+  exists w, encodev c (EPacket p) = ((w, Ok tt), c).
+Proof.
+  intros Hp Hok Hk q Hb Hc.
+  apply v5_encode_succeeds; try assumption.
+  apply v5_pub_ack_shortening_enough; [apply max_size_le| |exact Hb].
+  unfold q. rewrite pub_ack_kind_effective. exact Hk.
+Qed.
+
+(* CONNACK (k = 2), DISCONNECT and AUTH (k = 1): k bytes, the property length, fixed properties pl0, then the
+   diagnostics with the budget `reduce_limit(limit, pl0 + k + 4)` *)
+Lemma diag_enough k pl0 D L : L <= VI_MAX -> D <= reduce_limit L (k + 4 + pl0) ->
+  k + var_int_len (pl0 + 0) + (pl0 + 0) <= L -> k + var_int_len (pl0 + D) + (pl0 + D) <= L.
+Proof.
+  intros HL HD Hb. unfold reduce_limit in HD.
+  destruct (L <? k + 4 + pl0) eqn:E.
+  - assert (D = 0) by lia. subst D. exact Hb.
+  - pose proof (var_int_len_le4 (pl0 + D) ltac:(lia)). lia.
+Qed.
+
+(* every packet kind: leaving out the diagnostics is enough whenever the packet without them fits *)
+Theorem v5_shortening_enough p L : L <= VI_MAX ->
+  packet_encoded_size (drop_diag p) L <= L -> packet_encoded_size p L <= L.
+Proof.
+  intros HL Hb.
+  destruct p; try exact Hb;
+    try (apply v5_pub_ack_shortening_enough; [assumption|reflexivity|exact Hb]);
+    try (apply v5_list_ack_shortening_enough; [assumption|reflexivity|exact Hb]);
+    cbn [drop_diag packet_encoded_size] in *.
+  - rewrite !connect_ack_size_eq in *. cbv zeta in *.
+    change (connect_ack_fixed_len (mkConnectAck _ _ _ _ _ _ _ _ _ _ _ _ _ _ _ _ _ _ _)) with (connect_ack_fixed_len c) in Hb.
+    cbn [ca_user_properties ca_reason_string encoded_size_opt_props] in Hb.
+    apply diag_enough; [assumption| |exact Hb].
+    replace (2 + 4 + connect_ack_fixed_len c) with (2 + 4 + connect_ack_fixed_len c) by reflexivity.
+    apply esop_le.
+  - unfold disconnect_encoded_size in *. cbn [d_user_properties d_reason_string d_session_expiry_interval_secs
+      d_server_reference encoded_size_opt_props] in Hb. cbv zeta in *.
+    set (pl0 := eps sz4 _ + eps es_bytes _) in *.
+    apply diag_enough; [assumption| |exact Hb].
+    replace (1 + 4 + pl0) with (pl0 + 1 + 4) by lia. apply esop_le.
+  - unfold auth_encoded_size in *. cbn [a_user_properties a_reason_string a_auth_method a_auth_data
+      encoded_size_opt_props] in Hb. cbv zeta in *.
+    set (pl0 := eps es_bytes _ + eps es_bytes _) in *.
+    apply diag_enough; [assumption| |exact Hb].
+    replace (1 + 4 + pl0) with (pl0 + 1 + 4) by lia. apply esop_le.
+Qed.
+
+Theorem v5_shortened_is_sent c p :
+  ec_encoding_payload c = None -> enc_ok p = true ->
+  let q := effective c p in
+  packet_encoded_size (drop_diag q) (max_size_of c) <= max_size_of c ->
+  check_frame_size c (packet_encoded_size q (max_size_of c)) = Ok tt ->
+  exists w, encodev c (EPacket p) = ((w, Ok tt), c).
+Proof.
+  intros Hp Hok q Hb Hc.
+  apply v5_encode_succeeds; try assumption.
+  apply v5_shortening_enough; [apply max_size_le|exact Hb].
+Qed.
